@@ -1,0 +1,34 @@
+//go:build verif
+
+package shrex_getter
+
+// Contracts for the deductive verifier in /verif (govc). Comments only; build tag "verif".
+//
+// C06. The request loop is proved once, parametric in three ghost predicates of the caller's
+// response buffer: $Idle (state between attempts), $Filled (a peer's bytes were decoded into it),
+// $Verified (it passed verification against the requested header). The peer's behaviour is an
+// arbitrary result of `req` on every iteration, so the loop invariant covers every sequence of
+// answers, errors, timeouts and garbage.
+
+//@ func (*Getter).executeRequest
+//@   property C06
+//@   noframe
+//@   requires $Idle
+//@   param req: requires $Idle
+//@   param req: ensures $result == nil ==> $Filled
+//@   param req: ensures $result != nil ==> $Idle
+//@   param handle: requires $Filled
+//@   param handle: ensures $result == nil ==> $Verified
+//@   param handle: ensures $result != nil ==> $Idle
+//@   ensures result == nil ==> $Verified
+//@   ensures result != nil ==> $Idle
+//@   loop 1: invariant $Idle
+
+// GetSamples hands its buffer back even on failure, so "between attempts" has to mean "empty":
+// a sample that failed verification must not stay in the slot. This is the handle-spec of the
+// request loop (result != nil ==> $Idle) with $Idle bound to samples[i].IsEmpty().
+//@ func (*Getter).GetSamples$2$2
+//@   property C06
+//@   noframe
+//@   ensures result == nil ==> samples[i].Proof != nil
+//@   ensures result != nil ==> samples[i].Proof == nil
